@@ -42,7 +42,7 @@ def check(m, run):
     kv_pure(m, run, 'helpers.knot_removal_kv')
     run.floor('SS1.reads-follow-the-working-copy', 2, 'rows and slabs')
     from . import c03 as _c03
-    _c03.tol2(m, run)
+    _c03.multiplicity_rules(m, run)
     from .. import skel_drivers as _sdk
     _sdk.kd5(m, run)       # the per-row helpers dispatch on isinstance(point[0], float): the setters store floats
 
